@@ -38,6 +38,10 @@ Families of cases
          and only then used in constructor / operand / receiver / method
          argument / output-array position: the law is applied to the content
          at the time of the call
+  rep    lists that repeat ONE object ([x, x], x.dup(3), one literal object
+         repeated) in one and in all list positions: every index is its own
+         combination - own unit (count of units created, identity of the
+         result leaves)
 """
 
 import ast
@@ -87,6 +91,13 @@ SHAPES = {
     'le21': lambda a: ['l', ['e', a[0], a[1]], a[2]],    # edited CL in a list
     'ce21': lambda a: ['c', ['e', a[0], a[1]], a[2]],    # ... in a fresh CL
     'ec21': lambda a: ['e', ['c', a[0], a[1]], a[2]],    # edited, holds a CL
+    # --- ONE object repeated (family 'rep'): every index is a combination of
+    # its own although the elements are the very same Python object
+    'rr2': lambda a: ['l', a[0], a[0]],
+    'rr3': lambda a: ['l', a[0], a[0], a[0]],
+    'rc2': lambda a: ['c', a[0], a[0]],                  # sig.dup()
+    'rc3': lambda a: ['c', a[0], a[0], a[0]],            # sig.dup(3)
+    'rn2': lambda a: ['l', ['l', a[0], a[0]], ['l', a[0], a[0]]],
 }
 CTOR_SHAPES = ['s', 't', 'l1', 'l2', 'l3', 'n21', 'n12', 'r12', 'c2', 'o']
 # shapes of family 'ctorx' (none of them is in CTOR_SHAPES)
@@ -490,6 +501,29 @@ def exc_name(e):
     return type(e).__name__
 
 
+def _leaves(x, out):
+    if isinstance(x, list):            # list / ChannelList
+        for i in list.__iter__(x):
+            _leaves(i, out)
+    else:
+        out.append(x)
+    return out
+
+
+def alias_pattern(objs):
+    """Which leaves of a result are the very same unit object: index of the
+    first occurrence for every unit, -1 for everything else (numbers may be
+    shared freely)."""
+    from sc3.synth import ugen as ugn
+    first, out = {}, []
+    for o in objs:
+        if isinstance(o, ugn.SynthObject):
+            out.append(first.setdefault(id(o), len(first)))
+        else:
+            out.append(-1)
+    return out
+
+
 def run_pair(table, call_a, tree, call_leaf):
     """Build A: call_a(atoms) -> value.  Build B: evaluate `tree` with
     call_leaf(atoms, specs) for every list-free call.
@@ -505,23 +539,28 @@ def run_pair(table, call_a, tree, call_leaf):
             return ['raise', exc_name(e), str(e)[:200]]
         memo = {}
         return ['ok', describe(r, memo),
-                [describe(u, memo) for u in sd._children[n0:]]]
+                [describe(u, memo) for u in sd._children[n0:]],
+                alias_pattern(_leaves(r, []))]
 
     def body_b(sd):
         atoms = make_atoms(table)
         n0 = len(sd._children)
         memo = {}
+        keep = []          # results of the single calls, in tree order
 
         def ev(t):
             if t[0] == 'call':
-                return describe(call_leaf(atoms, t[1]), memo)
+                r = call_leaf(atoms, t[1])
+                keep.append(r)
+                return describe(r, memo)
             return ['CL', [ev(x) for x in t[1]]]
 
         try:
             d = ev(tree)
         except Exception as e:
             return ['raise', exc_name(e), str(e)[:200]]
-        return ['ok', d, [describe(u, memo) for u in sd._children[n0:]]]
+        return ['ok', d, [describe(u, memo) for u in sd._children[n0:]],
+                alias_pattern(_leaves(keep, []))]
 
     for name, body in (('a', body_a), ('b', body_b)):
         r, e, _ = in_build(body)
@@ -529,6 +568,14 @@ def run_pair(table, call_a, tree, call_leaf):
             r = ['raise', exc_name(e), 'outside the call: ' + str(e)[:200]]
         out[name] = r
     return out
+
+
+def _fam(case, fam):
+    if case.get('edit'):
+        return 'edited-' + fam
+    if case.get('rep'):
+        return 'repeat-' + fam
+    return fam
 
 
 def compare_pair(fam, res, relaxed=False):
@@ -553,6 +600,13 @@ def compare_pair(fam, res, relaxed=False):
             dis.append((kind, sb, sa, ''))
         else:
             dis.append((f'{fam}-element-differs', db, da, ''))
+    elif len(a) > 3 and len(b) > 3 and a[3] != b[3]:
+        # structurally equal, but channels that must be units of their own
+        # are one and the same object (or the other way round)
+        dis.append((f'{fam}-result-aliasing-differs', b[3], a[3],
+                    'per leaf of the result: index of the first leaf that is '
+                    'the same unit object (-1: not a unit); single calls vs '
+                    'expanded call'))
     ua = sorted(core.canon(u) for u in a[2])
     ub = sorted(core.canon(u) for u in b[2])
     if len(ua) != len(ub):
@@ -723,8 +777,7 @@ def check_ctor(case):
     tree = mx.expand(specs)
     res = run_pair(table, top, tree, call)
     fam = 'ctor-call' if via else 'ctor'
-    if case.get('edit'):
-        fam = 'edited-' + fam
+    fam = _fam(case, fam)
     dis, outcome = compare_pair(fam, res)
     return dis, mx.has_expansion(specs) and outcome[0] != 'undefined', \
         outcome
@@ -915,8 +968,7 @@ def check_op(case):
     elif via:
         fam += '-builtins'
     fam += '[ugen]' if case['recv'] == 's' else '[chanlist]'
-    if case.get('edit'):
-        fam = 'edited-' + fam
+    fam = _fam(case, fam)
     # Operators: the container type of *nested* results (plain list vs
     # ChannelList) is a don't-care everywhere (tests/test_multichannel.py pins
     # the plain inner list); the top-level container type stays checked.
@@ -1051,8 +1103,7 @@ def check_meth(case):
     # methods that only forward to _multichannel_perform share one mechanism
     fam = 'meth[_multichannel_perform]' if m and m['perform'] \
         else f'meth[{name}]'
-    if case.get('edit'):
-        fam = 'edited-' + fam
+    fam = _fam(case, fam)
     dis, outcome = compare_pair(fam, res)
     if name == 'poll':
         # poll hands back its receiver (pass-through by design) instead of
@@ -1088,6 +1139,9 @@ ELEMS_AR = {'z': 'z', 'f': 'f', 'A': 'A', 'lAz': ['A', 'z'],
 ELEMS_KR = {'z': 'z', 'n': 'n', 'K': 'K', 'lKn': ['K', 'n'],
             'lzKK': ['z', 'K', 'K'], 'nKzn': [['K', 'z'], 'n']}
 BUS_SHAPES = ['s', 'l2', 'l3', 'n21', 'c2']
+# family 'rep': '=' repeats the previous atom (the same object)
+REP_ELEMS_AR = {'lAA': ['A', '='], 'lAAA': ['A', '=', '=']}
+REP_ELEMS_KR = {'lKK': ['K', '='], 'lKKK': ['K', '=', '=']}
 # containers of the channel array: 'cont' = type of the array itself, 'inner'
 # = type of the nested elements ('l' plain list, 'c' ChannelList - what every
 # expanded constructor / operator returns).  Absent key = 'l'.
@@ -1135,6 +1189,9 @@ def out_specs(case):
             table[aid] = ['num', 0.25 * (aid - 7)]
         fixed.append(s)
     elems = ELEMS_AR if case['ctor'] == 'ar' else ELEMS_KR
+    if case.get('rep'):
+        elems = dict(elems, **(REP_ELEMS_AR if case['ctor'] == 'ar'
+                               else REP_ELEMS_KR))
     arr = case['chans']
     bare = 'bare' in arr
     names = [arr['bare']] if bare else arr['list']
@@ -1148,6 +1205,8 @@ def out_specs(case):
             if isinstance(e, list):
                 head = 'e' if top and edited == p else inner
                 return [head] + [conv(x) for x in e]
+            if e == '=':                 # the previous atom once more
+                return ['s', 16 + 8 * p + counter[0] - 1]
             aid = 16 + 8 * p + counter[0]
             counter[0] += 1
             table[aid] = {'z': ['num', 0], 'f': ['num', 0.0],
@@ -1257,8 +1316,7 @@ def check_out(case):
     a, b = got['a'], got['b']
     owner = next(k for k in cls.__mro__ if case['ctor'] in vars(k))
     tag = f"out[{owner.__name__}.{case['ctor']}]"   # the code that runs
-    if case.get('edit'):
-        tag = 'edited-' + tag
+    tag = _fam(case, tag)
     if a[0] == 'raise':
         dis.append((f'{tag}-build-raises', want, a[1:],
                     'a channel array of zeros / signals of the right rate '
@@ -1377,6 +1435,108 @@ def edit_cases(inv, modes):
                         yield {'t': 'out', 'cls': cn, 'ctor': rn, 'bus': b,
                                'xfade': 's' if nfixed == 2 else None,
                                'chans': arr, 'edit': ed}
+
+
+# ---------------------------------------------------------------------------
+# Family: rep (lists that repeat ONE object)
+# ---------------------------------------------------------------------------
+
+REP_SHAPES = ['rr2', 'rr3', 'rc2', 'rc3']
+
+
+def rep_cases(inv, modes):
+    """Lists whose elements are the very same object (sig.dup(), [amp, amp],
+    one literal repeated), alone, next to scalars and next to equally
+    repeating lists: every index is a combination of its own, so each must
+    create its own unit."""
+    for c in inv['ctors']:
+        n = len(c['params'])
+        variants, seen = [], set()
+
+        def add(sh):
+            if tuple(sh) not in seen:
+                seen.add(tuple(sh))
+                variants.append(sh)
+        for j in range(n):
+            for x in REP_SHAPES + ['rn2']:
+                sh = [ctor_base(c, k) for k in range(n)]
+                sh[j] = x
+                add(sh)
+            if n >= 2:
+                k2 = (j + 1) % n
+                for x, y in (('rr2', 'rr2'), ('rr3', 'rc3'), ('rr2', 'rr3'),
+                             ('rc2', 'l2'), ('rr2', 's')):
+                    sh = [ctor_base(c, k) for k in range(n)]
+                    sh[j], sh[k2] = x, y
+                    add(sh)
+        if 2 <= n <= 8:
+            add(['rr2'] * n)                 # every position repeats
+            add(['rc3'] + ['rr3'] * (n - 1))
+        for sh in variants:
+            for mode in modes:
+                yield {'t': 'ctor', 'cls': c['key'], 'ctor': c['ctor'],
+                       'args': sh, 'mode': mode, 'rep': 1}
+    for name in inv['binary'] + inv['reflected']:
+        for rs, os_ in [('s', 'rr2'), ('s', 'rr3'), ('s', 'rc2'),
+                        ('s', 'rn2'), ('rc2', 's'), ('rc3', 's'),
+                        ('rc2', 'rr2'), ('rc3', 'rr3'), ('rc2', 'rr3'),
+                        ('c2', 'rr2'), ('rc2', 'l2')]:
+            for mode in modes:
+                yield {'t': 'op', 'name': name, 'recv': rs, 'other': os_,
+                       'mode': mode, 'rep': 1}
+    for name in inv['unary']:
+        for rs in ('rc2', 'rc3'):
+            yield {'t': 'op', 'name': name, 'recv': rs, 'other': None,
+                   'mode': 'u', 'rep': 1}
+    for name in inv['binary']:
+        if name in INPLACE:
+            for rs, os_ in [('s', 'rr2'), ('rc2', 'rr2'), ('rc2', 's')]:
+                for mode in modes:
+                    yield {'t': 'op', 'name': name, 'recv': rs, 'other': os_,
+                           'mode': mode, 'via': 'inplace', 'rep': 1}
+    for name in inv['bi_binary']:
+        for via in ('bi', 'bi-r'):
+            for rs, os_ in [('s', 'rr2'), ('rc2', 'rr2'), ('rc2', 's')]:
+                for mode in modes:
+                    yield {'t': 'op', 'name': name, 'recv': rs, 'other': os_,
+                           'mode': mode, 'via': via, 'rep': 1}
+    for m in inv['methods']:
+        params = [p for p in m['params'] if p not in OPT_PARAMS]
+        n = len(params)
+        base = ['s' if params[k] in m['required'] else 'o' for k in range(n)]
+        variants = [('rc2', base), ('rc3', base)]
+        if n:
+            for rs, x in (('rc2', 'rr2'), ('rc3', 'rr3'), ('c2', 'rr2'),
+                          ('c1', 'rr3'), ('rc2', 'rr3')):
+                variants.append((rs, [x] + base[1:]))
+        if n >= 2:
+            variants.append(('rc2', ['rr2', 'rr2'] + base[2:]))
+        for rs, sh in variants:
+            for mode in modes:
+                yield {'t': 'meth', 'name': m['name'], 'recv': rs,
+                       'args': list(sh), 'mode': mode, 'rep': 1}
+    for cn, rn, nfixed in OUT_CTORS:
+        A, L2, L3 = ('A', 'lAA', 'lAAA') if rn == 'ar' else \
+            ('K', 'lKK', 'lKKK')
+        Z = 'lAz' if rn == 'ar' else 'lKn'
+        arrays = [[A], [A, 'z'], [L2], [L3], [L2, A], [A, L2], [L2, L2],
+                  [L2, Z], [L3, L2]]
+        buses = ['s', 'rr2', 'rr3', 'rc2'] if nfixed >= 1 else [None]
+        xf = ['s', 'rr2'] if nfixed == 2 else [None]
+        for b in buses:
+            for x in xf:
+                for names in arrays:
+                    for cont, inner in OUT_CONTAINERS:
+                        if inner == 'c' and not any(
+                                e in (L2, L3, Z) for e in names):
+                            continue
+                        arr = {'list': list(names)}
+                        if cont != 'l':
+                            arr['cont'] = cont
+                        if inner != 'l':
+                            arr['inner'] = inner
+                        yield {'t': 'out', 'cls': cn, 'ctor': rn, 'bus': b,
+                               'xfade': x, 'chans': arr, 'rep': 1}
 
 
 def _expr(spec):
@@ -1580,6 +1740,8 @@ def work_list(job):
         gen = call_cases(inv, job['modes'])
     elif fam == 'edit':
         gen = edit_cases(inv, job['modes'])
+    elif fam == 'rep':
+        gen = rep_cases(inv, job['modes'])
     else:
         raise ValueError(fam)
     _run_cases((c for i, c in enumerate(gen)
@@ -1608,7 +1770,7 @@ PREDICATES = {
 
 def main(ctx):
     ctx.rule = (
-        'E1: every case of eight families is executed twice inside real '
+        'E1: every case of nine families is executed twice inside real '
         'SynthDef builds (with lists / with the list-free calls of the '
         'expansion tree computed from the plain-data shapes). Distinct = '
         'literally different case (class, constructor, shape per parameter, '
@@ -1706,6 +1868,20 @@ def main(ctx):
                        'argument of every convenience method, as output '
                        'array / nested in one; atom modes '
                        + '/'.join(emodes))
+    rmodes = ['n', 'u', 'm'] if thorough else ['n', 'u']
+    progenum.run(ctx, MODNAME, 'work_list',
+                 [{'family': 'rep', 'shard': i, 'of': NS, 'modes': rmodes}
+                  for i in range(NS)],
+                 bound='rep: lists repeating ONE object (' +
+                       '/'.join(REP_SHAPES + ['rn2']) + ': [x, x], [x, x, x], '
+                       'x.dup(), x.dup(3), [[x, x], [x, x]]) on every '
+                       'parameter of every constructor alone / next to a '
+                       'scalar / next to an equally repeating list / on all '
+                       'parameters, as operand and receiver of every '
+                       'operator (all routes), as receiver / argument of '
+                       'every method, as bus / xfade / channels of the '
+                       'output units; unit identity of the result leaves is '
+                       'compared; atom modes ' + '/'.join(rmodes))
     progenum.run(ctx, MODNAME, 'work_list',
                  [{'family': 'tuple', 'shard': i, 'of': 16}
                   for i in range(16)],
